@@ -2,6 +2,7 @@
 """prints the prompt given to a fresh seeding sub-agent for one property (only the property text + a scratch worktree)."""
 import json, sys
 pid = sys.argv[1]; wt = sys.argv[2]; n = sys.argv[3] if len(sys.argv) > 3 else "2"
+avoid = sys.argv[4] if len(sys.argv) > 4 else ""
 for l in open('/verif/properties.jsonl'):
     p = json.loads(l)
     if p['id'] == pid:
@@ -19,4 +20,4 @@ For each change i (1..{n}) write into {wt}/OUT/mut<i>/:
   - patch.diff : `git diff` of the change against the clean worktree HEAD (must apply with `git apply` on a clean checkout of the same commit)
   - demo.rs (or a test file) + a short run.sh: a demonstration (a small standalone cargo test/program that uses the crates via path dependencies inside the worktree, e.g. an integration test file you add under the relevant crate's tests/ directory ONLY for the demonstration — keep it out of patch.diff) that FAILS with the change applied and PASSES without it
   - notes.md : which clause of the property it breaks, what it needs in order to manifest (the specific sequence / input / configuration), and the exact commands you ran with their observed results (tests passing with the change; demo failing with / passing without).
-Verify everything yourself before finishing: clean tree -> demo passes; apply patch -> existing tests pass, demo fails. Leave the worktree's tracked files CLEAN at the end (git checkout -- . ; the OUT directory is untracked and stays). Final message: a short summary of the {n} changes.""")
+Verify everything yourself before finishing: clean tree -> demo passes; apply patch -> existing tests pass, demo fails. Leave the worktree's tracked files CLEAN at the end (git checkout -- . ; the OUT directory is untracked and stays). Final message: a short summary of the {n} changes.""" + (("\n\nEarlier people already produced the following changes for this property; produce DIFFERENT ones (other functions, other mechanisms, other triggers), and prefer subtle ones: value-preserving-looking refactorings, changes that only matter for rarely used entry points, formats, sizes, build configurations or call orders:\n" + avoid) if avoid else ""))
